@@ -376,6 +376,9 @@ def _cause(model, prog, problem, kind=None, value=None):
         if "alias" in traits:
             return "alias"
         return "other"
+    if p in ("default_flag", "flag_by_exact_value") and kind == "int" and value is None \
+            and "multibit_member_without_single_bits" in traits:
+        return "multibit_member_without_single_bits"
     return kind or "other"
 
 
